@@ -406,6 +406,35 @@ func wrapTo(tm *Term, t types.Type) *Term {
 	return mkIte(inRange, tm, mkAdd(mkApp("mod", SInt, mkSub(tm, mkBig(lo)), mkBig(size)), mkBig(lo)))
 }
 
+// convInt converts an integer term of Go type `from` to type `to`: identity when the source range is contained in
+// the target range; same-width sign reinterpretation through an uninterpreted function with lazy axioms (keeps
+// the solver out of mod arithmetic); general two's-complement wrap otherwise.
+func convInt(tm *Term, from, to types.Type) *Term {
+	flo, fhi, fok := intRange(from)
+	tlo, thi, tok := intRange(to)
+	if !tok {
+		return tm
+	}
+	if tm.Kind == TInt {
+		return wrapTo(tm, to)
+	}
+	if fok {
+		if flo.Cmp(tlo) >= 0 && fhi.Cmp(thi) <= 0 {
+			return tm
+		}
+		fsize := new(big.Int).Sub(fhi, flo)
+		tsize := new(big.Int).Sub(thi, tlo)
+		if fsize.Cmp(tsize) == 0 {
+			bits := fsize.BitLen()
+			if flo.Sign() == 0 {
+				return mkApp(fmt.Sprintf("u2s%d", bits), SInt, tm)
+			}
+			return mkApp(fmt.Sprintf("s2u%d", bits), SInt, tm)
+		}
+	}
+	return wrapTo(tm, to)
+}
+
 // wrap1 handles results of a single + or - whose operands are in range: at most one wrap.
 func wrap1(tm *Term, t types.Type) *Term {
 	lo, hi, ok := intRange(t)
